@@ -298,7 +298,7 @@ func c07Run(c core.Case) core.Result {
 		c07Alphas[level] = alpha
 	}
 	var prog []*c07St
-	// N[1]: initial context (0: empty, 1: x defined, 2: x and y defined)
+	// N[1]: initial context (0: empty, 1: x defined, 2: x and y defined, 3: x and y defined as null)
 	for _, i := range c.N[2:] {
 		if i >= len(alpha) {
 			return core.Skipped("index")
@@ -315,9 +315,13 @@ func c07Run(c core.Case) core.Result {
 		ctx["x"] = "cx"
 		ref.scopes[0]["x"] = "cx"
 	}
-	if c.N[1] >= 2 {
+	if c.N[1] == 2 {
 		ctx["y"] = "cy"
 		ref.scopes[0]["y"] = "cy"
+	}
+	if c.N[1] == 3 { // x and y exist but hold null
+		ctx["x"], ctx["y"] = nil, nil
+		ref.scopes[0]["x"], ref.scopes[0]["y"] = "", ""
 	}
 	ref.run(prog)
 	if ref.unspec != "" {
@@ -362,11 +366,11 @@ func c07Gen(level, maxLen int, ctxs []int, emit func(core.Case)) {
 
 func c07Levels(tier string) []core.Level {
 	lv := []core.Level{
-		{Name: "flat programs: every sequence of <= 4 statements (set x, set y, observe, 7 macro calls) x 3 initial contexts", Gen: func(emit func(core.Case)) { c07Gen(0, 4, []int{0, 1, 2}, emit) }},
-		{Name: fmt.Sprintf("depth 1: every sequence of <= 2 statements over %d (leaves + for/if around every body of <= 2 leaves, 6 loop-variable forms) x 3 contexts", len(c07Alphabet(1))), Gen: func(emit func(core.Case)) { c07Gen(1, 2, []int{0, 1, 2}, emit) }},
+		{Name: "flat programs: every sequence of <= 4 statements (set x, set y, observe, 7 macro calls) x 4 initial contexts", Gen: func(emit func(core.Case)) { c07Gen(0, 4, []int{0, 1, 2, 3}, emit) }},
+		{Name: fmt.Sprintf("depth 1: every sequence of <= 2 statements over %d (leaves + for/if around every body of <= 2 leaves, 6 loop-variable forms) x 3 contexts (empty, x and y defined, x and y null)", len(c07Alphabet(1))), Gen: func(emit func(core.Case)) { c07Gen(1, 2, []int{0, 2, 3}, emit) }},
 		{Name: "depth 2: every single statement and every pair with a leaf, compounds nested in compounds", Gen: func(emit func(core.Case)) {
 			n1, n2 := len(c07Alphabet(1)), len(c07Alphabet(2))
-			for _, cx := range []int{0, 1, 2} {
+			for _, cx := range []int{0, 1, 2, 3} {
 				for i := n1; i < n2; i++ {
 					emit(core.Case{Fam: "prog", N: []int{2, cx, i}})
 					for l := 0; l < 3; l++ {
@@ -399,7 +403,7 @@ func init() {
 	core.Register(&core.Check{
 		ID:       "C07",
 		Category: "exploration",
-		Rule: "every program of the stated size over: set x / set y (each with its own literal), an observation printing x, y, z and their definedness (through Context.Scope().Get) and that of 'loop', 7 macro calls (parameter x; parameters y,x with an assignment to the parameter; missing / surplus arguments; variable arguments), for loops over 2 elements in 6 variable forms (value x/y/z, key/value pairs colliding with outer names) and if true/false, nested to depth 2, from 3 initial contexts; each program ends with an observation. " +
+		Rule: "every program of the stated size over: set x / set y (each with its own literal), an observation printing x, y, z and their definedness (through Context.Scope().Get) and that of 'loop', 7 macro calls (parameter x; parameters y,x with an assignment to the parameter; missing / surplus arguments; variable arguments), for loops over 2 elements in 6 variable forms (value x/y/z, key/value pairs colliding with outer names) and if true/false, nested to depth 2, from 4 initial contexts (empty, x defined, x and y defined, x and y defined as null); each program ends with an observation. " +
 			"Reference: exactly the statement (locals shadow and vanish, outer variables untouched unless assigned, top-level and in-branch set persists, set to an existing unshadowed outer variable updates it, first-set-in-loop does not survive). distinct = distinct program x context; non-trivial = more than the final observation",
 		Assumptions: []string{
 			"unspecified and skipped (counted): assignment to a currently shadowed name; reading, in a later iteration, a variable first set in an earlier iteration of the same loop (Twig keeps it, stick does not; the statement is silent)",
